@@ -116,6 +116,20 @@ def named (fs : List Field) : List Field := fs.filter fun f => f.norm != "_"
 def agrees (g c : Struct) : Bool :=
   g.size == c.size && fieldsAgree (named g.fields) (named c.fields)
 
+def overlaps (a b : Field) : Bool :=
+  decide (a.off < b.off + b.width) && decide (b.off < a.off + a.width)
+
+/-- a leaf that is dropped from the comparison as padding on one side is padding on the other side as well:
+    it overlaps no DATA leaf there (it lies over explicit or implicit padding) -/
+def padsClear (g c : Struct) : Bool :=
+  (g.fields.filter fun f => f.norm == "_").all (fun p => (named c.fields).all fun d => !overlaps p d) &&
+  (c.fields.filter fun f => f.norm == "_").all (fun p => (named g.fields).all fun d => !overlaps p d)
+
+def padsClearOpt (g : Option Struct) (c : Struct) : Bool :=
+  match g with
+  | none => true
+  | some g => padsClear g c
+
 /-- a value argument agrees (a Delete has none) -/
 def agreesOpt (g : Option Struct) (c : Struct) : Bool :=
   match g with
